@@ -329,6 +329,29 @@ def analyse(facts, tier):
         ok = sa == sb and set(sa) == {0, 1} and sorted(sa.values()) == [0, 8]
         obls.append(Obl('C15.R3', a, 'codec pair %s/%s' % (a, b), facts.fn(a).loc, 'discharged' if ok else 'finding',
                         why='byte -> shift maps %s and %s' % (sa, sb)))
+    # sign extension: a decoder reads a byte as a signed quantity only when it is the most significant byte of a signed result
+    for a in ('toUint16LE', 'toUint16BE', 'toSint16BE'):
+        fn = facts.fn(a)
+        arr = [p for p in fn.params if p['t'].get('p')][0]
+        shifts = codec_shifts(facts, a)
+        signed_reads = set()
+        for b, j, st in fn.cfg.stmts(conds=False):
+            for x in walk(st['s']):
+                # (int8_t)arr[i]  or  *(const int8_t *)&arr[i]
+                if x.get('k', '').endswith('CastExpr') and (x.get('t') or {}).get('w') == 8 and not (x.get('t') or {}).get('u') and not (x.get('t') or {}).get('p'):
+                    for y in walk(x.get('e')):
+                        if y.get('k') == 'ArraySubscriptExpr' and strip(y['b']).get('id') == arr['id'] and const_of(y['i']) is not None:
+                            signed_reads.add(const_of(y['i']))
+                if x.get('k') == 'UnaryOperator' and x.get('op') == '*' and (x.get('t') or {}).get('w') == 8 and not (x.get('t') or {}).get('u'):
+                    for y in walk(x.get('e')):
+                        if y.get('k') == 'ArraySubscriptExpr' and strip(y['b']).get('id') == arr['id'] and const_of(y['i']) is not None:
+                            signed_reads.add(const_of(y['i']))
+        top = max(shifts, key=lambda i: shifts[i]) if shifts else None
+        want = {top} if (a.startswith('toSint') and top is not None) else set()
+        ok = signed_reads == want
+        obls.append(Obl('C15.R3', a, 'sign extension of %s' % a, fn.loc, 'discharged' if ok else 'finding',
+                        why='bytes read as signed: %s' % sorted(signed_reads) if ok else
+                        'bytes read as signed: %s, expected %s: a low byte >= 0x80 is sign-extended over the high byte, so values outside -128..127 do not survive save + load' % (sorted(signed_reads), sorted(want))))
     # string terminators: after strncpy(dst, cursor, n) a store dst[k] = 0 must have k == min(n, extent-1)
     for fname in ('WOPN_parseInstrument', 'WOPN_LoadBankFromMem'):
         fn = facts.fn(fname)
